@@ -67,9 +67,96 @@ def canon(o):
 
 
 def scratch_dir(tag: str) -> Path:
-    d = SCRATCH_ROOT / f"hapverif-{tag}-{os.getpid()}"
+    # the directory name holds a blank (users keep data under "My Documents" and the like): every path the checks hand to the
+    # implementation then does; the driver's own scratch directory stays plain
+    blank = " run" if tag != "drv" and os.environ.get("VERIF_PLAIN_PATHS") != "1" else ""
+    d = SCRATCH_ROOT / f"hapverif-{tag}-{os.getpid()}{blank}"
     d.mkdir(parents=True, exist_ok=True)
     return d
+
+
+def plumb(case, tag: str, n: int) -> int:
+    """a choice in range(n) that is a function of the case (and the tag) alone: how the plumbing around a case varies – final
+    newline or not, an older file in the place of the output, the name of a file – without touching the generators"""
+    import hashlib
+
+    return int(hashlib.sha256((jdump(case) + "|" + tag).encode()).hexdigest()[:8], 16) % n
+
+
+def text_ending(case, tag: str, text: str) -> str:
+    """the same text as users' tools leave it: mostly with its final newline, for a quarter of the cases without it"""
+    if text.endswith("\n") and not text.endswith("\n\n") and plumb(case, "ending:" + tag, 4) == 0:
+        return text[:-1]
+    return text
+
+
+def end_file(case, tag: str, path):
+    """like `text_ending` for a plain-text file that is already written: a quarter of the cases lose the final newline"""
+    try:
+        with open(path, "rb") as f:
+            b = f.read()
+        if b.endswith(b"\n") and not b.endswith(b"\n\n") and plumb(case, "ending:" + tag, 4) == 0:
+            with open(path, "wb") as f:
+                f.write(b[:-1])
+    except OSError:
+        pass
+
+
+class as_stream:
+    """`with as_stream(path) as fifo:` – the bytes of a file offered as a stream (a named pipe, as `/dev/stdin` fed by another
+    program is): it can be read once, front to back, and cannot be sniffed, counted or re-opened"""
+
+    def __init__(self, path):
+        self.src = Path(path)
+
+    def __enter__(self):
+        import threading
+
+        self.fifo = self.src.parent / (self.src.name + ".fifo")
+        if self.fifo.exists():
+            self.fifo.unlink()
+        os.mkfifo(self.fifo)
+        data = self.src.read_bytes()
+
+        def feed():
+            try:
+                fd = os.open(self.fifo, os.O_WRONLY)
+                try:
+                    os.write(fd, data) if data else None
+                finally:
+                    os.close(fd)
+            except OSError:
+                pass
+
+        self.t = threading.Thread(target=feed, daemon=True)
+        self.t.start()
+        return self.fifo
+
+    def __exit__(self, *exc):
+        # release a feeder nobody read from (the reader failed before opening the pipe)
+        try:
+            fd = os.open(self.fifo, os.O_RDONLY | os.O_NONBLOCK)
+            os.close(fd)
+        except OSError:
+            pass
+        self.t.join(timeout=2)
+        try:
+            self.fifo.unlink()
+        except OSError:
+            pass
+        return False
+
+
+def stale_output(path, sidecars=()):
+    """an older, longer file already sits where the output goes (a re-run into the same name): it must not show in the result"""
+    junk = ("stale line from an older run\tX\t1\t2\t3\n" * 4000).encode()
+    for p in (path, *sidecars):
+        try:
+            Path(p).parent.mkdir(parents=True, exist_ok=True)
+            with open(p, "wb") as f:
+                f.write(junk)
+        except OSError:
+            pass
 
 
 def rm_tree(d: Path):
